@@ -164,6 +164,8 @@ def run(repo, tier):
     run_forward(repo, res, MODS)
     run_axis(repo, res, MODS)
     a1_collect(repo, res, modules=MODS)
+    from .common import run_nonfinite
+    run_nonfinite(repo, res, MODS)
     res.floor('T-ORDER', 12)
     res.floor('USERCOL', 5)
     res.floor('FWD', 15)
